@@ -271,6 +271,13 @@ def run(repo, rep):
 
     rep.run_borrowed(_c12m, {"C12-k": "C10-m"}, repo)
     rep.run_borrowed(_c02m, {"C02-d": "C10-m"}, repo, only_sites=("apply_schedule",))
+    rep.clause("C10-o", "a depth slice is computed with its own weights: every core's padded sub-stream is inside the weight DMA [C08-f]; the no-buffering fallback restores the full-depth slices together with the full weights [C08-i]; the channel offset of a slice addresses brick c // 16 whatever the element size [C02-v]")
+    from . import c08 as _c08o
+
+    rep.run_borrowed(_c08o, {"C08-f": "C10-o", "C08-i": "C10-o"}, repo, only_sites=("create_dma_op", "propose_weight_buffering"))
+    rep.run_borrowed(_c02m, {"C02-v": "C10-o"}, repo, only_sites=("get_augmented_coord",))
+    rep.clause("C10-p", "the un-cascaded MAX schedule is returned early only when nothing can be evicted from fast storage afterwards: the early exit of optimize_schedule is guarded by `not is_spilling_enabled()` as well as by the SRAM limit (otherwise a tried MIN schedule leaves rolling-buffer shapes on tensors that are then used as whole feature maps)")
+    rule_early_exit_guard(repo, rep)
     rule_rolling_buffer_addressing(repo, rep)
     rule_tensor_effect_order(repo, rep)
     rule_tile_base_offset_side(repo, rep)
@@ -695,3 +702,25 @@ def rule_slice_chain(repo, rep):
     excluded = any(c in ("consumer.type != Op.SplitSliceRead", "Op.SplitSliceRead != consumer.type") or ("SplitSliceRead" in c and "not in" in c) for c in cj)
     rep.check(excluded or not overwrites, "C10-n", site, "a slice read is not folded into a consumer that is a slice read itself (its own read window would be overwritten)",
               "move_splitsliceread_to_consumer assigns the consumer's read offset / shape and nothing keeps SplitSliceRead consumers out: input -> SLICE(rows 3..29) -> SPLIT(2 along H) -> two pools: both pools read rows [3,16) of the input")
+
+
+def rule_early_exit_guard(repo, rep):
+    """(p) Scheduler.optimize_schedule returns the MAX schedule at once if it fits. apply_schedule never undoes the rolling-buffer storage
+    shapes a tried cascade leaves behind, so every later path that may try the MIN schedule (weight-buffer optimisation on spilling
+    configurations) must be unreachable after that return: the guard has the two reviewed conjuncts."""
+    from ..exprnorm import conjuncts
+
+    sch = repo.mod("scheduler")
+    f = sch.func("Scheduler.optimize_schedule")
+    site = "ethosu/vela/scheduler.py:Scheduler.optimize_schedule"
+    if f is None:
+        raise AnalysisError("scheduler.Scheduler.optimize_schedule not found")
+    exits = [i for i in f.body if isinstance(i, ast.If) and any(isinstance(r, ast.Return) and r.value is not None and "max_sched" in str(norm(r.value)) for r in i.body)]
+    if len(exits) != 1:
+        raise AnalysisError(f"optimize_schedule: the early return of the MAX schedule was not found ({len(exits)})")
+    cj = [str(norm(c)) for c in conjuncts(exits[0].test)]
+    has_limit = any("fast_storage_peak_usage" in c and "sram_limit" in c for c in cj)
+    has_spill = any("is_spilling_enabled" in c and c.strip().startswith("not ") for c in cj)
+    rep.check(has_limit and has_spill, "C10-p", site, f"early return under `{norm(exits[0].test)}`",
+              f"guard `{norm(exits[0].test)}`: conjuncts {cj}; without `not self.arch.is_spilling_enabled()` an Ethos-U65 compilation goes on to try the cascaded MIN schedule, restores the MAX schedule "
+              "and writes whole feature maps through 2-10 row rolling buffers")
